@@ -28,9 +28,13 @@ class MethodPaths:
     """All paths of a method with their return values.  `for` loops are summarised: their body is executed once
     symbolically (one generic iteration) and the loop is recorded as ('loop', iter, stores/updates)."""
 
-    def __init__(self, fi: FuncInfo):
+    def __init__(self, fi: FuncInfo, rename: Optional[Dict[str, str]] = None, call_adapters=None):
         self.fi = fi
-        self.side = Side(fi, label=fi.name)
+        self.rename = dict(rename or {})
+        self.call_adapters = call_adapters
+        self.side = Side(fi, rename=self.rename, label=fi.name)
+        if call_adapters:
+            self.side.call_adapters = call_adapters
         self.pe = PathExec(self.side)
         bld = IRBuilder()
         self.items = bld.build(fi.node.body)
@@ -38,7 +42,10 @@ class MethodPaths:
         self.loops: List[Tuple[ast.AST, Env, List[tuple]]] = []
 
     def run(self):
-        self._walk(self.items, Env(), [], [])
+        env = Env(self.rename)
+        if self.call_adapters:
+            env.call_adapters = self.call_adapters
+        self._walk(self.items, env, [], [])
         return self
 
     def _walk(self, items, env: Env, conds: List[tuple], stores: List[tuple]):
